@@ -64,8 +64,8 @@ Print Assumptions c14_kl_at_prior.
      tr Sw + |mw|^2 - n - log det Sw
        = tr(Kzz^-1 S) + (m-mz)^T Kzz^-1 (m-mz) - n + log det Kzz - log det S
    with S = L Sw L^T.  Missing: det (L Sw L^T) = det Kzz * det Sw (multiplicativity of the
-   Laplace-expansion determinant of Base/Exec.v is not available); the log-det part is covered
-   by the correspondence only. *)
+   Laplace-expansion determinant of Base/Exec.v) -- now proved in Base/Det.v: the full statements are
+   c14_kl_whitened_eq_unwhitened and c14_kl_whitened_eq_unwhitened_log below (name kept: DESIGN refers to it). *)
 Theorem c14_kl_whitened_eq_unwhitened_partial :
   forall (K : Fld) m Kzz Kinv L Linv,
     meq m m (mmul m L (mT L)) Kzz -> is_inverse m L Linv -> is_inverse m Kzz Kinv ->
@@ -113,8 +113,8 @@ Print Assumptions ex_c14_kl_log_hypotheses.
    lower-triangular L (Cholesky factor of Kzz) and C (factor of S_w, CholeskyVariationalDistribution),
    L C is the lower-triangular factor of S = L S_w L^T and its squared diagonal product
    (= det S as computed from a Cholesky factor) is det Kzz * det S_w computed the same way.
-   PARTIAL: that the squared diagonal product of a triangular factor T is the (Laplace) determinant
-   of T T^T is not proved. *)
+   PARTIAL: does not say that the squared diagonal product of a triangular factor T is the (Laplace)
+   determinant of T T^T; the full statement is c14_kl_logdet_whitening_triangular below. *)
 Theorem c14_kl_logdet_whitening_triangular_partial :
   forall (K : Fld) n L C Sw,
     lower n L -> lower n C -> meq n n (mmul n C (mT C)) Sw ->
